@@ -471,6 +471,9 @@ def eq_values(ex, a, b):
     if a.ty.kind == "bool" and b.ty.kind == "bool":
         return a.t == b.t
     if a.ty.is_heap and b.ty.is_heap:
+        if a.t is None or b.t is None:
+            # a lambda-defined (virtual) list has no identity: comparing it with `==` is outside the supported subset
+            raise Unsupported(f"== on a list value without identity ({a.ty}, {b.ty})")
         return a.t == b.t       # identity (classes without __eq__)
     if a.ty.kind == "tuple" and b.ty.kind == "tuple":
         return z3.And([eq_values(ex, x, y) for x, y in zip(a.items, b.items)])
